@@ -591,6 +591,8 @@ def evaluate(cases, results, shard=60):
             mism[i] = -1; ofail.add(i)
         else:
             good.append((i, c, r))
+            if c.get('live') and r.get('body') is None:
+                ofail.add(i)                      # liveness: funds exceed the request by the clear margin, yet no transaction
     shards, maps = [], []
     for k in range(0, len(good), shard):
         part = good[k:k + shard]
@@ -607,6 +609,57 @@ def evaluate(cases, results, shard=60):
 
 
 # ---------------------------------------------------------------- classification
+def gen_live(rng):
+    """LIVENESS scenario: an ADA-only wallet at one address (enterprise or base) whose funds exceed the request by a clear
+    margin (LIVE_MARGIN: several times the largest fee plus the minimum ADA of a change output); nothing minted, no
+    certificates.  The request is aimed at the boundaries of the selection: the sum of the j largest UTxOs minus about one
+    fee and one minimum change, +- a few ten thousand lovelace — where what a selector returned for the request it was
+    given (fee estimated BEFORE the selected inputs were added) just about leaves the change its minimum ADA.
+    The property demands a transaction; a refusal is a violation."""
+    pp = dict(rng.choice([PPS[0], PPS[0], PPS[0], PPS[4]]))
+    wallet = rng.choice([ADDRS[0], ADDRS[2], ADDRS[2]])
+    n = rng.randint(3, 12)
+    unit = rng.choice([3, 5, 10, 10, 25]) * ADA
+    txids = ['%064x' % rng.getrandbits(256) for _ in range(rng.randint(1, 4))]
+    utxos, seen = [], set()
+    for k in range(n):
+        while True:
+            t, i = rng.choice(txids), rng.randrange(0, 40)
+            if (t, i) not in seen:
+                seen.add((t, i)); break
+        coin = unit if rng.random() < 0.6 else rng.choice([unit // 2, unit + 1234567, 2 * unit, unit - 1000])
+        utxos.append(dict(t=t, i=i, a=wallet, c=coin, m=[]))
+    coins = sorted((u['c'] for u in utxos), reverse=True)
+    total = sum(coins)
+    margin = live_margin(pp)
+    js = [j for j in range(1, n) if total - sum(coins[:j]) >= margin]
+    if not js:
+        return gen_live(rng)
+    j = rng.choice(js)
+    fee_guess = pp['a'] * rng.choice([250, 300, 330, 400]) + pp['b']
+    minchg_guess = (160 + rng.choice([65, 94])) * pp['cpb']
+    want = sum(coins[:j]) - fee_guess - minchg_guess + rng.randrange(-40000, 40001, 50)
+    if rng.random() < 0.25:
+        want = rng.randint(2 * ADA, max(2 * ADA, total - margin))
+    want = max(want, 2 * ADA)
+    if total - want < margin:
+        return gen_live(rng)
+    nout = rng.choice([1, 1, 2])
+    outs = [dict(a=rng.choice(ADDRS[:4]), c=want // nout if k else want - (want // nout) * (nout - 1), m=[]) for k in range(nout)]
+    if any(o['c'] < 1500000 for o in outs):
+        outs = [dict(a=ADDRS[1], c=want, m=[])]
+    return dict(kind='e2e', pp=pp, utxos=utxos, explicit=[], addr_inputs=[wallet], potential=[], excluded=[], outs=outs,
+                mint=None, scripts=[], wdrl=None, certs=None, pool_initial=False, props=[], donation=None, change=wallet,
+                merge=False, fee_buffer=None, treasury=None, order=None, rseed=rng.getrandbits(32), sel=True, live=True,
+                selectors=rng.choice([None, None, 'lf', 'lf', 'ri']))
+
+
+def live_margin(pp):
+    """the 'clear margin' of the liveness clause: 3 x (largest fee a transaction can need + minimum ADA of a change output)"""
+    maxfee = pp['a'] * pp.get('mts', 16384) + pp['b'] + 807800 + 721000
+    return 3 * (maxfee + (160 + 100) * pp['cpb'])
+
+
 def features(c):
     f = []
     if c['kind'] != 'e2e':
@@ -622,6 +675,8 @@ def features(c):
         f.append('dup-input')
     if any(u['m'] for u in c['utxos']):
         f.append('multi-asset')
+    if c.get('live'):
+        f.append('liveness')
     if c.get('sel'):
         f.append('selection-rich')
     f.append('explicit' if c.get('explicit') and not c.get('addr_inputs') else
@@ -632,6 +687,14 @@ def features(c):
 def classify(c, r):
     if 'driver_error' in r:
         return 'exception'
+    if c.get('live') and r.get('body') is None:
+        sel = (r.get('log') or {}).get('sel', [])
+        ok = [x for x in sel if x.get('res', ['err'])[0] == 'ok']
+        if ok and r.get('err') == 'InsufficientUTxOBalanceException' and len(ok[-1]['res'][1]) < len(ok[-1]['pool']):
+            # a selector answered (within its contract, for the request it was given) and left UTxOs in the pool; build()
+            # then refused in _add_change_and_fee: the fee of the inputs just added was not part of the request
+            return 'liveness-refused-after-selection'
+        return 'liveness-refused'
     if c['kind'] == 'pack':
         return 'pack-not-a-partition'
     if c['kind'] == 'calc':
@@ -663,6 +726,7 @@ def gen_cases(ctx, n_e2e, n_sel, n_calc, n_pack):
     ncorpus = len(cases)
     cases += [gen_e2e(ctx.rng) for _ in range(n_e2e)]
     cases += [gen_sel(ctx.rng) for _ in range(n_sel)]
+    cases += [gen_live(ctx.rng) for _ in range(max(40, n_sel // 2))]
     cases += [gen_calc(ctx.rng) for _ in range(n_calc)]
     cases += [gen_pack(ctx.rng) for _ in range(n_pack)]
     return cases, ncorpus
